@@ -248,6 +248,7 @@ func runLoopScenario(sc LoopScenario, tier string, bound int, only []int, st *en
 	st.Outcomes += int64(len(schedules))
 	st.Nontrivial += int64(len(schedules))
 	st.Add("loop_level_scenarios", 1)
+	st.Sample(map[string]any{"loop_level_scenario": sc.Name, "threads": sc.Threads, "preemption_bound": bound, "schedules": ex})
 }
 
 // workerResult is what `lzmc worker` prints.
